@@ -4,7 +4,6 @@ from harness import core, pyvalues as pv
 ID = 'C22'
 TITLE = 'Cell value conversion is total and idempotent'
 PROPS = ['Props/C22']
-DISABLED = True
 RULE = ('every type object of usertypes.py (DateTime for 4 zone labels, one unknown) x values from the grammar of '
         'harness/pyvalues.py (ints/floats at the 2^31, 2^53, 2^1024 and 4300-digit edges, NaN/inf/-0.0, numeric, boolean, '
         'JSON, ISO-date and RecordList-repr looking strings, bytes, nested containers, dates and datetimes with moment and '
@@ -19,7 +18,8 @@ TRUSTED = ['hand-written model Model/Values.v of usertypes.py / objtypes.py, com
            'records, opaque objects, json.loads, iso8601.parse_date, int(str), str.lower, bytes.decode, tz database lookups; '
            'the harness fills them per case from the running library',
            'harness/pyvalues.py: Python value -> Coq literal']
-ASSUMPTIONS = ['opaque objects compare unequal to "" and None and are not instances of the builtin/Grist classes',
+ASSUMPTIONS = ['rows_ok: row ids inside record sets handed to RefList/Attachments are valid row ids (-2^31 <= id < 2^31), as the Id column guarantees',
+               'opaque objects compare unequal to "" and None and are not instances of the builtin/Grist classes',
                'subclasses of int/float/str/bytes do not override methods',
                'GRIST_TRUTHY_VALUES / GRIST_FALSY_VALUES are unset (monitored)',
                'BaseException subclasses that are not Exception (KeyboardInterrupt...) raised by user objects are outside the model']
@@ -223,7 +223,7 @@ def correspond(ctx):
     if not second:
       work.append((T, w))
   ctx.log('literals for %d cases written' % len(coq))
-  bad = ctx.run_cases('convert', ['Grist.Lib.PyFloat', 'Grist.Model.Values'], CHECK, coq, shard=100)
+  bad = ctx.run_cases('convert', ['Grist.Lib.PyFloat', 'Grist.Model.Values'], CHECK, coq, shard=ctx.n(100, 60), timeout=ctx.n(600, 3000))
   for k in bad[:8]:
     T, v = meta[k]
     ctx.broken('correspondence:model convert/is_right_type differs from usertypes.%s' % type(T).__name__,
